@@ -181,6 +181,7 @@ class Stats:
         self.cache_hits = 0
         self.fallback_nlsat = 0
         self.fallback_cvc5 = 0
+        self.box_decided = 0
 
     def merge(self, o):
         for k, v in o.__dict__.items():
@@ -215,6 +216,7 @@ class Engine:
         self.cache = {}             # canonical cond key -> bool
         self.cache_ast = {}         # ast id -> (bool, ast)  (ast kept alive)
         self.pz_cache = {}
+        self.ivcache = {}
         self.sqrt_memo = {}         # radicand key -> vid
         self.div_memo = {}          # (num key, den key) -> vid
         self.stats = Stats()
@@ -324,6 +326,10 @@ class Engine:
             res = self._fallback(extra, first=True)
         dt = time.time() - t
         st.solver_s += dt
+        if res == 'unknown' and os.environ.get('SYMGEO_DEBUG'):
+            import traceback
+            print('   UNKNOWN on extra=%s' % (str(extra)[:600],), flush=True)
+            print('   at ' + ' <- '.join('%s:%d' % (os.path.basename(f.filename), f.lineno) for f in traceback.extract_stack()[-9:-1] if 'Geometry3D' in f.filename), flush=True)
         if dt > 2 and os.environ.get('SYMGEO_DEBUG'):
             print('   slow query %.1fs -> %s (pc=%d, nlsat=%d cvc5=%d)' % (dt, res, len(self.pc), st.fallback_nlsat, st.fallback_cvc5), flush=True)
         setattr(st, res, getattr(st, res) + 1)
@@ -536,6 +542,86 @@ class Engine:
             return t[1]
         return None
 
+    # ---- interval pre-check over the parameter box (sound: the path condition implies the box)
+    def var_ival(self, vid):
+        c = self.ivcache
+        if vid in c:
+            return c[vid]
+        v = self.vars[vid]
+        k = v['kind']
+        r = None
+        if k == 'param':
+            lo, hi = v['info'] if v['info'] else (None, None)
+            if lo is not None and hi is not None:
+                r = (float(lo), float(hi))
+        elif k == 'bv':
+            r = (float(v['info'][0]), float(v['info'][1]))
+        elif k == 'sqrt':
+            iv = self.ival(v['info'])
+            if iv is not None and iv[1] >= 0:
+                r = (_math.sqrt(max(iv[0], 0.0)) * (1 - 1e-12), _math.sqrt(iv[1]) * (1 + 1e-12) + 1e-300)
+        elif k == 'isqrt':
+            iv = self.var_ival(v['info'])
+            if iv is not None and iv[0] > 0:
+                r = (1.0 / iv[1] * (1 - 1e-12), 1.0 / iv[0] * (1 + 1e-12))
+        elif k == 'quo':
+            n, d = self.ival(v['info'][0]), self.ival(v['info'][1])
+            if n is not None and d is not None and (d[0] > 0 or d[1] < 0):
+                cands = [n[0] / d[0], n[0] / d[1], n[1] / d[0], n[1] / d[1]]
+                lo, hi = min(cands), max(cands)
+                w = (abs(lo) + abs(hi)) * 1e-12
+                r = (lo - w, hi + w)
+        elif k == 'round':
+            iv = self.ival(v['info'][0])
+            if iv is not None:
+                st = 0.5 * 10.0 ** -v['info'][1]
+                r = (iv[0] - st * 1.000001, iv[1] + st * 1.000001)
+        elif k == 'ite':
+            a, b = self.ival(v['info'][1]), self.ival(v['info'][2])
+            if a is not None and b is not None:
+                r = (min(a[0], b[0]), max(a[1], b[1]))
+        c[vid] = r
+        return r
+
+    def ival(self, p):
+        """float enclosure of a polynomial over the parameter box, or None"""
+        tlo = thi = 0.0
+        mag = 0.0
+        for m, cf in p.t.items():
+            lo = hi = float(cf)
+            for vid, e in m:
+                iv = self.var_ival(vid)
+                if iv is None:
+                    return None
+                for _ in range(e):
+                    cands = (lo * iv[0], lo * iv[1], hi * iv[0], hi * iv[1])
+                    lo, hi = min(cands), max(cands)
+            tlo += lo
+            thi += hi
+            mag += max(abs(lo), abs(hi))
+        w = mag * 1e-11 + 1e-300
+        if tlo != tlo or thi != thi or mag == float('inf'):
+            return None
+        return tlo - w, thi + w
+
+    def box_decides(self, tree):
+        """True / False if the comparison has that truth value everywhere on the parameter box, else None"""
+        if tree[0] == 'not':
+            r = self.box_decides(tree[1])
+            return None if r is None else (not r)
+        if tree[0] != 'atom':
+            return None
+        iv = self.ival(tree[1])
+        if iv is None:
+            return None
+        lo, hi = iv
+        op = tree[2]
+        if op == '<':
+            return True if hi < 0 else (False if lo >= 0 else None)
+        if op == '<=':
+            return True if hi <= 0 else (False if lo > 0 else None)
+        return False if (lo > 0 or hi < 0) else None
+
     def eval_cond(self, sb):
         """truth of a SymBool under the current assignment, or None"""
         self.get_assignment()
@@ -621,7 +707,12 @@ class Engine:
             elif side:
                 self.model_stale = True
         other = z3.Not(cond) if side else cond
-        ro = self.check(other)
+        bd = None if raw else self.box_decides(sb.tree)
+        if bd is not None and bd == side:
+            ro = 'unsat'           # the other side is impossible already on the parameter box (interval arithmetic)
+            self.stats.box_decided += 1
+        else:
+            ro = self.check(other)
         if ro == 'sat':
             self.worklist.append((self.decisions + [not side], False))
         elif ro == 'unknown':
@@ -1209,6 +1300,43 @@ def _square_form(p):
     return a, Poly(L)
 
 
+def _deglex(m):
+    return (sum(e for _, e in m), m)
+
+
+def _poly_sqrt(p, pmul):
+    """if p == a * Q^2 for a rational a > 0 and a polynomial Q, return (a, Q) (classical square-root algorithm under a
+    degree-lexicographic term order); None otherwise"""
+    if not p.t:
+        return None
+    lm = max(p.t, key=_deglex)
+    a = p.t[lm]
+    if a <= 0 or any(e % 2 for _, e in lm):
+        return None
+    P = p.scale(1 / a)
+    q0 = tuple((v, e // 2) for v, e in lm)
+    Q = Poly({q0: Fraction(1)})
+    for _ in range(60):
+        Rm = P.add(pmul(Q, Q).neg())
+        if not Rm.t:
+            return a, Q
+        m = max(Rm.t, key=_deglex)
+        c = Rm.t[m]
+        # m must be divisible by the leading monomial q0 of Q
+        d = dict(m)
+        for v, e in q0:
+            if d.get(v, 0) < e:
+                return None
+            d[v] -= e
+        t = tuple(sorted((v, e) for v, e in d.items() if e > 0))
+        if _deglex(t) >= _deglex(q0):
+            return None
+        if t in Q.t:
+            return None
+        Q = Q.add(Poly({t: c / 2}))
+    return None
+
+
 def _strip_isqrt(p):
     """if every monomial of p contains the same inverse-sqrt atom squared, return (P, radicand) with p == P / radicand"""
     e = ENG
@@ -1280,6 +1408,8 @@ def sym_sqrt(x, force_atom=False):
                 if c > 0 and not P.add(rad.scale(-c)).t:
                     return sym_sqrt(c, force_atom=True)
     sf = _square_form(p)
+    if sf is None and p.degree() >= 2:
+        sf = _poly_sqrt(p, lambda x, y: e.pmul(x, y))
     if sf is not None and sf[0] > 0:
         # sqrt(a * L^2) = sqrt(a) * |L| : exact, and linear in the parameters
         a, L = sf
